@@ -54,14 +54,30 @@ func Run(c *vf.Check) {
 		for n := 2; n <= maxN; n++ {
 			for t := 1; t <= n; t++ {
 				gn, n, t := gn, n, t
-				jobs = append(jobs, func() { runPVSS(c, gn, n, t) })
+				jobs = append(jobs, func() { runPVSS(c, gn, n, t, false) })
+			}
+		}
+		// larger trustee lists (the statement quantifies n up to 10): a reduced menu
+		if gn == "ed25519" || c.Thorough() {
+			bigNs := []int{7, 10}
+			if c.Thorough() {
+				bigNs = []int{7, 8, 9, 10}
+			}
+			for _, n := range bigNs {
+				for t := 1; t <= n; t++ {
+					if !c.Thorough() && !(t == 1 || t == 2 || t == n/2+1 || t == n-1 || t == n) {
+						continue
+					}
+					gn, n, t := gn, n, t
+					jobs = append(jobs, func() { runPVSS(c, gn, n, t, true) })
+				}
 			}
 		}
 		gn := gn
 		jobs = append(jobs, func() { runDLEQ(c, gn) })
 	}
 	vf.Parallel(len(jobs), func(i int) { jobs[i]() })
-	c.Finish("engine E: PVSS on Ed25519 and P-256, n=2..4 (thorough ..6), every 1<=t<=n, secrets {0,1,r}, second base H in {picked g1, g2}: all honest encrypted shares verify singly and in batch, every trustee's decrypted share verifies, every subset of decrypted shares (in 2 orders) recovers secret*G iff it has >= t members; "+
+	c.Finish("engine E: PVSS on Ed25519 and P-256, n=2..4 (thorough ..6), every 1<=t<=n (and n in {7,10} on Ed25519 with t in {1,2,n/2+1,n-1,n} - thorough n=7..10, every t, both groups - on a reduced menu: secret r, every subset of size t-1, t and n, mutations at trustees 0, n/2, n-1), secrets {0,1,r}, second base H in {picked g1, g2}: all honest encrypted shares verify singly and in batch, every trustee's decrypted share verifies, every subset of decrypted shares (in 2 orders) recovers secret*G iff it has >= t members; "+
 		"every single-field mutation of every trustee's encrypted share (S.V, S.I, P.C, P.R, P.VG, P.VH -> value+1 / another trustee's / identity), of a commitment coefficient, of key X[i] (swapped with X[j]), the challenge of another sharing, whole shares swapped between trustees (all pairs) -> the mutated element fails single verification and is absent from the batch output, the caller's input slices are left intact; every single-field mutation of a decrypted share incl. republishing it under another index -> rejected, or recovery still yields secret*G. DLEQ: proof for x verifies for (xG,xH); each of C,R,VG,VH,xG,xH,G,H altered, and the sum-preserving alterations (xG<->xH, VG<->VH, G<->H, +D/-D shifts) -> error. "+
 		"non-trivial = mutated inputs; distinct by (group, n, t, secret, H, trustee, field, mutation)",
 		[]string{"the dealer's randomness is a seeded stream", "the expected global challenge is taken from the honest dealer's output (it is not exported by the package)"}, nil)
@@ -86,7 +102,7 @@ func cloneShare(s *pvss.PubVerShare) *pvss.PubVerShare {
 	return c
 }
 
-func runPVSS(c *vf.Check, gn string, n, t int) {
+func runPVSS(c *vf.Check, gn string, n, t int, large bool) {
 	pk := "C13/pvss/" + gn
 	g := groups.ByName(gn)
 	q := g.Order
@@ -94,6 +110,9 @@ func runPVSS(c *vf.Check, gn string, n, t int) {
 	for si, sec := range secrets {
 		for hi := 0; hi < 2; hi++ {
 			if hi == 1 && si != 2 {
+				continue
+			}
+			if large && (si != 2 || hi != 0) {
 				continue
 			}
 			sec, hi := sec, hi
@@ -197,6 +216,9 @@ func runPVSS(c *vf.Check, gn string, n, t int) {
 						sub = append(sub, i)
 					}
 				}
+				if large && !(len(sub) == t-1 || len(sub) == t || len(sub) == n) {
+					continue // large n: every subset of size t-1 (refused), of size t, and the full list
+				}
 				for ord := 0; ord < 2; ord++ {
 					if ord == 1 && len(sub) < 2 {
 						continue
@@ -287,6 +309,9 @@ func runPVSS(c *vf.Check, gn string, n, t int) {
 				continue
 			}
 			for i := 0; i < n; i++ {
+				if large && i != 0 && i != n-1 && i != n/2 {
+					continue
+				}
 				for _, m := range encMuts {
 					i, m := i, m
 					id := fmt.Sprintf("%s: trustee %d enc %s", cfg, i, m.name)
@@ -390,6 +415,9 @@ func runPVSS(c *vf.Check, gn string, n, t int) {
 				}, false},
 			}
 			for i := 0; i < n; i++ {
+				if large && i != 0 && i != n-1 && i != n/2 {
+					continue
+				}
 				for _, m := range decMuts {
 					i, m := i, m
 					id := fmt.Sprintf("%s: trustee %d dec %s", cfg, i, m.name)
